@@ -189,3 +189,40 @@ Proof.
   unfold MC.dec, MC.nth0. cbn [length Nat.eqb nth firstn skipn le_val map pingslotchannelreq_unmarshal unle3 omap bind pingslot_view].
   rewrite BL.land15 by assumption. change (2 ^ 32)%N with 4294967296%N. f_equal. f_equal; lia.
 Qed.
+
+(* ---- LinkADRReq ----------------------------------------------------------- *)
+
+From LW Require Mac.Spec Mac.EncProofs.
+From LW Require Import Band.CrossLayerProofs.
+
+Lemma mask_val_bits_val m : Z.of_N (LW.Mac.Spec.mask_val m) = bits_val m.
+Proof.
+  induction m as [|b m IH]; cbn [LW.Mac.Spec.mask_val bits_val]; [reflexivity|].
+  rewrite <- IH. destruct b; cbn [LW.Mac.Spec.b2f]; lia.
+Qed.
+
+Lemma chmask_enc_link m : length m = 16%nat -> map Z.of_N (MC.enc_chmask m) = chmask_marshal m.
+Proof.
+  intros L. unfold MC.enc_chmask, chmask_marshal.
+  replace (pad_to false 16 m) with m by (rewrite <- L; symmetry; apply pad_to_id).
+  rewrite LW.Mac.EncProofs.chmask_val_sum. rewrite <- mask_val_bits_val.
+  pose proof (LW.Mac.EncProofs.mask_val_lt m) as Hlt. rewrite L in Hlt.
+  change (2 ^ N.of_nat 16)%N with 65536%N in Hlt. change (2 ^ 0)%N with 1%N.
+  generalize dependent (LW.Mac.Spec.mask_val m). intros v Hv.
+  cbn [le_bytes map]. f_equal; [lia|f_equal; lia].
+Qed.
+
+Lemma linkadrreq_enc_link p :
+  0 <= p_dr p < 256 -> 0 <= p_txp p < 256 -> 0 <= p_cntl p < 256 -> 0 <= p_nbrep p < 256 ->
+  length (p_mask p) = 16%nat ->
+  linkadrreq_marshal p
+  = zs (MC.enc (MC.PLinkADRReq (Z.to_N (p_dr p)) (Z.to_N (p_txp p)) (p_mask p) (Z.to_N (p_cntl p)) (Z.to_N (p_nbrep p)))).
+Proof.
+  intros Hd Ht Hc Hn L. unfold linkadrreq_marshal, zs, MC.enc, MC.enc_redundancy.
+  destruct (p_dr p >? 15) eqn:E1; destruct (15 <? Z.to_N (p_dr p))%N eqn:E1'; try lia; [reflexivity|].
+  destruct (p_txp p >? 15) eqn:E2; destruct (15 <? Z.to_N (p_txp p))%N eqn:E2'; try lia; [reflexivity|].
+  destruct (p_nbrep p >? 15) eqn:E3; destruct (15 <? Z.to_N (p_nbrep p))%N eqn:E3'; try lia; [reflexivity|].
+  destruct (p_cntl p >? 7) eqn:E4; destruct (7 <? Z.to_N (p_cntl p))%N eqn:E4'; try lia; [reflexivity|].
+  cbn [bind omap]. rewrite !map_app. cbn [map app].
+  rewrite chmask_enc_link by assumption. rewrite !lxor_shl4_link by lia. reflexivity.
+Qed.
